@@ -58,7 +58,7 @@ _PLAIN_BUILTINS = {"len", "bytes", "int", "str", "bool", "list", "tuple", "dict"
                    "bytearray", "abs", "iter", "next", "callable", "id", "hash", "vars", "dir", "map", "filter", "ord", "chr"}
 
 
-_SPEC_BUILTINS = {"HASH", "UUID5", "HEX", "ENC", "utf8", "TAG", "NAMESPACE_DNS", "UNHEX", "FILE", "TEXTFILE", "EXISTS", "HEXMAP", "HEX_PUT", "HEX_EMPTY", "HEX_MERGE", "HEX_TOBIN", "HEX_MIN", "HEX_MAX", "HEX_OVERLAP", "HEX_ISEMPTY", "HEX_FILE_OK", "in_version_grammar", "AESGCM_ENC", "KEYS_DIR", "pathstr", "ECDSA_R", "ECDSA_S", "EDDSA_SIG", "SIGN", "KEY_IS_EC", "KEY_SIZE", "KEY_DATA", "KEY_KIND"}
+_SPEC_BUILTINS = {"HASH", "UUID5", "HEX", "ENC", "utf8", "TAG", "NAMESPACE_DNS", "UNHEX", "FILE", "TEXTFILE", "EXISTS", "HEXMAP", "HEX_PUT", "HEX_EMPTY", "HEX_MERGE", "HEX_TOBIN", "HEX_MIN", "HEX_MAX", "HEX_OVERLAP", "HEX_ISEMPTY", "HEX_FILE_OK", "in_version_grammar", "AESGCM_ENC", "KEYS_DIR", "pathstr", "ECDSA_R", "ECDSA_S", "EDDSA_SIG", "SIGN", "KEY_IS_EC", "KEY_SIZE", "KEY_DATA", "KEY_KIND", "PUB_X", "PUB_Y", "PUB_RAW", "PRIV_BYTES", "PUB_BYTES"}
 
 
 def builtin_name(it, name):
@@ -254,6 +254,12 @@ def rep_bytes(it, byte: int, count: VInt) -> VBytes:
 
 
 def hash_term(it, name: str, size: int, data: VBytes) -> VBytes:
+    if data.conc is not None:
+        import hashlib
+        n = name.lower().replace("-", "")
+        if n in ("shake128", "shake256"):
+            return VBytes(getattr(hashlib, n.replace("shake", "shake_"))(data.conc).digest(size))
+        return VBytes(hashlib.new(n, data.conc).digest())
     t = HASH(z3.StringVal(name), z3.IntVal(size), data.e)
     it.assume(z3.Length(t) == size)
     it.known_lens[t.sexpr()] = size
